@@ -510,9 +510,22 @@ def r9(ctx, r):
                         return ((c["op"] == "==") == bool(const_value(rr))) == t
                 return False
             closed = any(flag_true(c, t) for (c, t) in facts)
+
+            def drained(c, t):
+                c = strip_casts(c)
+                if c.get("k") == "mcall" and last(c.get("callee", "")) == "empty" and field_of(c.get("obj")) == SRB + "::data":
+                    return t
+                if c.get("k") == "member" and c["n"] == SRB + "::hasData":
+                    return not t
+                return False
+            empty = any(drained(c, t) for (c, t) in facts)
             r.expect(closed, f, e, "live receive buffer erased", "%s removes a receiveBuffers entry that is not known to be closed (known: %s): bytes that arrive for the session afterwards find no buffer and "
                      "are dropped by the data handler while the mode is still Sync — the next receiveSync misses them" % (short(f.name), "; ".join(("" if t else "!") + show(c)[:40] for c, t in facts[-4:]) or "nothing"),
                      okdesc="%s: erase only of a closed buffer" % short(f.name))
+            r.instance()
+            r.expect(empty, f, e, "undrained receive buffer erased", "%s removes a receiveBuffers entry without having seen it empty (known: %s): bytes that arrived before the close and were not yet returned / flushed "
+                     "are destroyed — the reader gets PeerClosed (or the data callback nothing) without them" % (short(f.name), "; ".join(("" if t else "!") + show(c)[:40] for c, t in facts[-4:]) or "nothing"),
+                     okdesc="%s: erase only of a drained buffer" % short(f.name))
     if n < 2:
         raise AnalysisBroken("receiveBuffers erase sites: %d found, expected >= 2" % n)
 
